@@ -14,7 +14,23 @@ COLS = {
     'b': lambda r: np.array([True, False, True][:r], dtype=bool),
     'U': lambda r: np.array(['a', 'bb', ''][:r], dtype='<U2'),
     'O': lambda r: np.array([None, 'x', 3][:r], dtype=object),
+    'j': lambda r: (np.arange(r, dtype=np.int32) * 5 - 1),
+    'g': lambda r: np.array([0.5, 2.0, np.nan][:r], dtype=np.float32),
 }
+
+
+def col(kind, rows, j):
+    """column j of the given kind: columns of one kind differ by position (so a value taken from the wrong column shows)"""
+    a = COLS[kind](rows)
+    if j == 0 or rows == 0:
+        return a
+    if kind in 'ij':
+        return a + np.array(10 * j, dtype=a.dtype)
+    if kind in 'fg':
+        return np.roll(a, j) + np.array(j, dtype=a.dtype)
+    if kind == 'U':
+        return np.array([x + str(j) for x in np.roll(a, j).tolist()], dtype='<U2')
+    return np.roll(a, j)
 
 
 def canon(x):
@@ -91,13 +107,24 @@ def ops():
         'drop_duplicated': lambda f: f.drop_duplicated(axis=1),
         'bloc': lambda f: f.bloc[f.isna()],
         'via_T_values': lambda f: f.T.values,
+        'ffill1': lambda f: f.fillna_forward(axis=1),
+        'bfill1': lambda f: f.fillna_backward(axis=1),
+        'ffill1_limit1': lambda f: f.fillna_forward(1, axis=1),
+        'bfill1_limit1': lambda f: f.fillna_backward(1, axis=1),
+        'ffill0': lambda f: f.fillna_forward(axis=0),
+        'bfill0': lambda f: f.fillna_backward(axis=0),
+        'fill_leading1': lambda f: f.fillna_leading(-7, axis=1),
+        'fill_trailing1': lambda f: f.fillna_trailing(-7, axis=1),
+        'fill_leading0': lambda f: f.fillna_leading(-7, axis=0),
+        'fill_trailing0': lambda f: f.fillna_trailing(-7, axis=0),
     }
     return o
 
 
 def enumerate_cases():
     for m in (1, 2, 3, 4):
-        kinds_iter = itertools.product('ifbUO', repeat=m) if m <= 3 else [('i', 'i', 'f', 'f'), ('b', 'U', 'U', 'O'), ('i', 'i', 'i', 'i'), ('f', 'O', 'O', 'i')]
+        kinds_iter = itertools.product('ifbUO', repeat=m) if m <= 3 else [('i', 'i', 'f', 'f'), ('b', 'U', 'U', 'O'), ('i', 'i', 'i', 'i'), ('f', 'O', 'O', 'i'),
+                                                                          ('f', 'i', 'i', 'f'), ('O', 'f', 'f', 'O'), ('f', 'f', 'i', 'i')]
         for kinds in kinds_iter:
             for rows in (0, 2, 3) if m <= 2 else (2,):
                 yield (m, kinds, rows)
@@ -107,11 +134,11 @@ def run(repo, task):
     import static_frame as sf
     rep = Report('C03-layout', task,
                  rule='every dtype-kind assignment to m<=3 columns (4 selected for m=4) x rows in {0,2,3} x every dtype-safe block layout '
-                      '(1-D/2-D); a case is non-trivial when it has >= 2 layouts or a structural check on >= 1 cell',
-                 bound='columns <= 4, rows <= 3, dtype kinds {int64,float64,bool,<U2,object}, 49 single-frame operations')
+                      '(1-D/2-D), columns of one kind holding different data; a case is non-trivial when it has >= 2 layouts or a structural check on >= 1 cell',
+                 bound=f'columns <= 4, rows <= 3, dtype kinds {{int64,float64,bool,<U2,object}}, {len(ops())} single-frame operations')
     catalogue = ops()
     for (m, kinds, rows) in rep.shard(enumerate_cases()):
-        cols = [COLS[k](rows) for k in kinds]
+        cols = [col(k, rows, j) for j, k in enumerate(kinds)]
         labels = [f'c{j}' for j in range(m)]
         index = [f'r{i}' for i in range(rows)]
         frames = []
@@ -167,10 +194,66 @@ def run(repo, task):
     return rep.done()
 
 
+BIN_PAIRS = [('iijff', 'iiiff'), ('ijf', 'iif'), ('jii', 'iii'), ('fgi', 'ffi'), ('iiff', 'iiff'), ('ijij', 'iiii'), ('fUU', 'fUU'), ('bbi', 'bib')]
+BIN_OPS = {'add': lambda a, b: a + b, 'eq': lambda a, b: a == b, 'mul': lambda a, b: a * b, 'radd': lambda a, b: b + a, 'lt': lambda a, b: a < b}
+
+
+def _bin_frames(kinds, rows, shift):
+    cols = [col(k, rows, j + shift) for j, k in enumerate(kinds)]
+    labels = [f'c{j}' for j in range(len(cols))]
+    index = [f'r{i}' for i in range(rows)]
+    return [(lay, frame_from(cols, lay, index=index, column_labels=labels)) for lay in layouts_dtype_safe(cols)]
+
+
+def run_binary(repo, task):
+    """a binary operator between two frames with the same labels gives the same result (or the same exception class)
+    whatever the block layouts of the two operands are"""
+    rep = Report('C03-layout-binary', task,
+                 rule='two frames with equal labels (2 rows; 3-5 columns, adjacent columns of one dtype kind but different dtypes on the left, '
+                      'e.g. int64,int64,int32,float64,float64) x every pair of dtype-safe block layouts x {+, *, ==, <, reflected +}; every pair is non-trivial',
+                 bound=f'{len(BIN_PAIRS)} dtype assignments, rows = 2, columns <= 5, all layout pairs')
+    tier = task.get('tier', 'quick')
+    cases = [(ka, kb, opn) for ka, kb in BIN_PAIRS for opn in BIN_OPS]
+    for ka, kb, opn in rep.shard(cases):
+        try:
+            fa, fb = _bin_frames(ka, 2, 0), _bin_frames(kb, 2, 1)
+        except Exception:
+            rep.error(f'binary harness {ka} {kb}')
+            continue
+        op = BIN_OPS[opn]
+        first = None
+        for la, a in fa:
+            for lb, b in fb:
+                try:
+                    out = canon(op(a, b))
+                except Exception as e:
+                    out = ('exc', type(e).__name__)
+                rep.count(distinct_key=(ka, kb, opn, la, lb))
+                if first is None:
+                    first = (out, la, lb)
+                elif repr(out) != repr(first[0]):
+                    rep.fail(f'C03:layout-binary:{opn}', f'{opn} of frames with dtypes {ka} and {kb} differs between layouts ({first[1]}, {first[2]}) and ({la}, {lb}): {str(first[0])[:200]} vs {str(out)[:200]}',
+                             dict(binary=True, ka=ka, kb=kb, op=opn, layouts_a=[[list(x) for x in first[1]], [list(x) for x in first[2]]], layouts_b=[[list(x) for x in la], [list(x) for x in lb]]))
+    return rep.done()
+
+
 def replay(repo, rp):
     import static_frame as sf
+    if rp.get('binary'):
+        outs = []
+        for la, lb in (rp['layouts_a'], rp['layouts_b']):
+            ca = [col(k, 2, j) for j, k in enumerate(rp['ka'])]
+            cb = [col(k, 2, j + 1) for j, k in enumerate(rp['kb'])]
+            labels = [f'c{j}' for j in range(len(ca))]
+            a = frame_from(ca, tuple(tuple(x) for x in la), index=['r0', 'r1'], column_labels=labels)
+            b = frame_from(cb, tuple(tuple(x) for x in lb), index=['r0', 'r1'], column_labels=labels)
+            try:
+                outs.append(canon(BIN_OPS[rp['op']](a, b)))
+            except Exception as e:
+                outs.append(('exc', type(e).__name__))
+        return dict(outcome='fail' if repr(outs[0]) != repr(outs[1]) else 'pass', a=str(outs[0])[:400], b=str(outs[1])[:400])
     kinds, rows = rp['kinds'], rp['rows']
-    cols = [COLS[k](rows) for k in kinds]
+    cols = [col(k, rows, j) for j, k in enumerate(kinds)]
     labels = [f'c{j}' for j in range(len(cols))]
     index = [f'r{i}' for i in range(rows)]
     def mk(lay):
